@@ -73,6 +73,10 @@ def execute(ch, cfg):
     def callback(*a, **kw):
         now = env.now
         fired.append((now, a, kw))
+        if len(fired) > 4 * H:
+            if not bad:
+                bad.append(("C19.once", "%s:callback-fires-without-end" % tag, "%d firings by t=%r; actions %r" % (len(fired), now, acts)))
+            raise RuntimeError("harness: runaway timer")
         # reference: a firing must be expected by some state
         ns = set()
         for (pending, stopped, period, lenient) in ref["states"]:
@@ -114,8 +118,8 @@ def execute(ch, cfg):
         nsteps = 0
         while env.peek() < INF and env.peek() <= H + 3:
             nsteps += 1
-            if nsteps > 2000:
-                bad.append(("C19.once", "%s:timer-keeps-the-simulation-at-one-instant" % tag, "more than 2000 kernel steps; t=%r actions %r fired %r" % (env.now, acts, fired[:5])))
+            if nsteps > 400:
+                bad.append(("C19.once", "%s:timer-keeps-the-simulation-at-one-instant" % tag, "more than 400 kernel steps; t=%r actions %r fired %r" % (env.now, acts, fired[:5])))
                 break
             nxt = env.peek()
             if nxt > env.now:
